@@ -601,6 +601,11 @@ func init() {
 			{Scenario: "panel.staleauth", Params: vx.P("change", "expire"), Bound: 2, BudgetS: 100, Weight: 4},
 			{Scenario: "panel.staleauth", Params: vx.P("change", "delete"), Bound: 2, BudgetS: 100, Weight: 4},
 			{Scenario: "auth.second", Params: vx.P("transport", "cdn"), Weight: 3},
+			// forgeries that need no key: small-order ephemeral points sealed under the secret they force
+			{Scenario: "auth.smallorder", Params: vx.P("transport", "direct", "browser", "chrome"), Weight: 1},
+			{Scenario: "auth.smallorder", Params: vx.P("transport", "direct", "browser", "firefox"), Weight: 1},
+			{Scenario: "auth.smallorder", Params: vx.P("transport", "direct", "browser", "safari"), Weight: 1},
+			{Scenario: "auth.smallorder", Params: vx.P("transport", "cdn"), Weight: 1},
 			// "a UID the server currently authorises": admission of every connection along histories of
 			// credit / expiry / cap changes while the user is already active (shared with C15)
 			{Scenario: "panel.history", Params: vx.P("depth", "6"), Weight: 5},
